@@ -2286,3 +2286,107 @@ func ruleCmpMixed(p *Prog, r *Result) {
 		}
 	}
 }
+
+// ---------------- QUANTRANGE ----------------
+
+func init() {
+	register("QUANTRANGE", "a user number handed to third-party code that indexes with it is range-checked first: the quantile given to the quantile stream (perks/quantile computes a slice index from it) is, on every way to the construction of the stream, known to be >= 0 and <= 1 by comparisons whose failing outcome returns an error (written so that NaN fails them)", ruleQuantRange)
+}
+
+func ruleQuantRange(p *Prog, r *Result) {
+	n := 0
+	for _, fn := range p.Funcs {
+		allInstrs(fn, func(in ssa.Instruction) {
+			c, ok := in.(*ssa.Call)
+			if !ok {
+				return
+			}
+			g := c.Call.StaticCallee()
+			if g == nil || g.Pkg == nil || !strings.HasSuffix(g.Pkg.Pkg.Path(), "perks/quantile") || !strings.HasPrefix(g.Name(), "New") {
+				return
+			}
+			n++
+			// the float64 keys put into the map argument
+			var q ssa.Value
+			allInstrs(fn, func(in2 ssa.Instruction) {
+				if mu, ok := in2.(*ssa.MapUpdate); ok && len(c.Call.Args) > 0 && mu.Map == c.Call.Args[0] {
+					q = mu.Key
+				}
+			})
+			if q == nil {
+				r.hit(p.FName(fn)+"|quantile", p.InstrPos(c), "the quantile handed to the stream could not be identified")
+				return
+			}
+			var inRange func(v ssa.Value, at *ssa.BasicBlock, depth int) (bool, bool)
+			inRange = func(v ssa.Value, at *ssa.BasicBlock, depth int) (lower, upper bool) {
+				for _, a := range dominatingAtoms(at) {
+					if a.X != v {
+						continue
+					}
+					k, ok := a.Y.(*ssa.Const)
+					if !ok || k.Value == nil {
+						continue
+					}
+					f, _ := constant.Float64Val(constant.ToFloat(k.Value))
+					switch a.Op {
+					case token.GEQ, token.GTR:
+						if f >= 0 {
+							lower = true
+						}
+					case token.LEQ, token.LSS:
+						if f <= 1 {
+							upper = true
+						}
+					}
+				}
+				if lower && upper || depth > 3 {
+					return
+				}
+				// a field that only ever receives checked values (or copies of itself)
+				if o, fl, _, ok := loadedField(v); ok && o != nil {
+					all, any := true, false
+					for _, g2 := range p.Funcs {
+						allInstrs(g2, func(in3 ssa.Instruction) {
+							st, ok := in3.(*ssa.Store)
+							if !ok {
+								return
+							}
+							o2, f2, _, ok := fieldOfAddr(st.Addr)
+							if !ok || o2 != o || f2 != fl {
+								return
+							}
+							any = true
+							if o3, f3, _, ok := loadedField(st.Val); ok && o3 == o && f3 == fl {
+								return
+							}
+							if ph, ok := st.Val.(*ssa.UnOp); ok {
+								if al, ok := ph.X.(*ssa.Alloc); ok {
+									okAll := true
+									for _, sv := range storedInto(al) {
+										if o3, f3, _, ok := loadedField(sv); !(ok && o3 == o && f3 == fl) {
+											okAll = false
+										}
+									}
+									if okAll {
+										return
+									}
+								}
+							}
+							l2, u2 := inRange(st.Val, st.Block(), depth+1)
+							if !l2 || !u2 {
+								all = false
+							}
+						})
+					}
+					if any && all {
+						return true, true
+					}
+				}
+				return
+			}
+			lower, upper := inRange(q, c.Block(), 0)
+			r.add(lower && upper, p.FName(fn)+"|quantile", p.InstrPos(c), fmt.Sprintf("the quantile is known to lie in [0, 1] where the stream is built (lower bound %v, upper bound %v; positive comparisons, so NaN is refused)", lower, upper))
+		})
+	}
+	r.floor("constructions of a quantile stream", n, 1)
+}
